@@ -30,6 +30,7 @@
 #include <errno.h>
 #include <sys/wait.h>
 #include <sys/stat.h>
+#include <zlib.h>
 #include "vh.h"
 using namespace muscle;
 
@@ -58,7 +59,7 @@ static const uint32 TYPES[12] = {B_BOOL_TYPE, B_INT8_TYPE, B_INT16_TYPE, B_INT32
 static const char * TNAME[12] = {"bool", "i8", "i16", "i32", "i64", "f32", "f64", "str", "pt", "rc", "raw", "msg"};
 static int TIdx(uint32 t) { for (int i = 0; i < 12; i++) if (TYPES[i] == t) return i; return -1; }
 
-struct Prof { bool pySafe; bool nonAsciiNames; bool big; int maxDepth; };
+struct Prof { bool pySafe; bool nonAsciiNames; bool big; int maxDepth; bool zeroItems; Prof() : pySafe(true), nonAsciiNames(false), big(false), maxDepth(3), zeroItems(false) {} };
 
 static bool IsNaN32(uint32_t b) { return (b & 0x7F800000u) == 0x7F800000u && (b & 0x007FFFFFu); }
 static bool IsNaN64(uint64_t b) { return (b & 0x7FF0000000000000ULL) == 0x7FF0000000000000ULL && (b & 0x000FFFFFFFFFFFFFULL); }
@@ -182,6 +183,7 @@ static Scr Gen(int depth, const Prof & p)
       const bool fixed = (f.type != B_MESSAGE_TYPE && f.type != B_STRING_TYPE && f.type != B_RAW_TYPE);
       if (p.big && fixed && R(25) == 0) n = 200 + R(3000);
       if (f.type == B_MESSAGE_TYPE) n = 1 + (R(8) == 0 ? R(8) : R(3));
+      if (p.zeroItems && R(4) == 0) n = 0;     // a field with NO items: legal wire content (Python makes it from an empty list, C++ through a shared array)
       const bool nanPR = !p.pySafe && R(3) == 0;
       switch (f.type) {
          case B_BOOL_TYPE:   for (uint32 k = 0; k < n; k++) f.iv.push_back(R(2)); break;
@@ -209,7 +211,7 @@ static Scr Gen(int depth, const Prof & p)
    return s;
 }
 
-struct Info { bool nonUtf8, nanPtRc, nonAsciiName; uint32 depth, fields, items, perType[12], nanItems, emptyNames, zeroRaw, emptyStr, utf8Str, multiItemFields, maxCount, userTyped, pyStrFields;
+struct Info { bool nonUtf8, nanPtRc, nonAsciiName; uint32 depth, fields, items, perType[12], zeroItemFields, zeroItemRaw, nanItems, emptyNames, zeroRaw, emptyStr, utf8Str, multiItemFields, maxCount, userTyped, pyStrFields;
    Info() { memset(this, 0, sizeof(*this)); } };
 static void Walk(const Scr & s, Info & in, uint32 depth)
 {
@@ -217,6 +219,7 @@ static void Walk(const Scr & s, Info & in, uint32 depth)
    for (size_t i = 0; i < s.f.size(); i++) {
       const Fld & f = s.f[i]; in.fields++; const uint32 c = f.Count(); in.items += c; in.perType[TIdx(f.type)] += c; if (c > 1) in.multiItemFields++; if (c > in.maxCount) in.maxCount = c;
       if (f.name.empty()) in.emptyNames++;
+      if (c == 0) { in.zeroItemFields++; if (f.type == B_RAW_TYPE) in.zeroItemRaw++; }
       if (!IsAscii(f.name)) in.nonAsciiName = true;
       switch (f.type) {
          case B_FLOAT_TYPE: for (size_t k = 0; k < f.bits.size(); k++) if (IsNaN32((uint32_t)f.bits[k])) in.nanItems++; break;
@@ -333,6 +336,15 @@ static void CKR(status_t r, const char * what) { if (r.IsError()) HarnessAbort(s
 static void BuildField(Message & m, const Fld & f)
 {
    const uint32 n = f.Count(); const String name(f.name.c_str());
+   if (n == 0) {   // the only way the C++ API leaves a zero-item field behind: share the array under a second name, then empty it through the first
+      Fld tmp = JunkLike(f); tmp.name = "\x03shared-array-donor"; const String tn(tmp.name.c_str()); const uint32 c = 2 + R(3);   // two or more: a single item lives inline in the field and is copied, not shared
+      for (uint32 k = 0; k < c; k++) PutItem(m, tmp, 0, R(2) ? PUT_ADD : PUT_PREPEND, 0);
+      CKR(m.ShareName(tn, m, name), "ShareName"); for (uint32 k = 0; k < c; k++) CKR(m.RemoveData(tn, R(2) ? 0 : (c - 1 - k)), "RemoveData(shared)");
+      uint32 tc = 0, cnt = 99; if (m.HasName(tn) || m.GetInfo(name, &tc, &cnt).IsError() || cnt != 0 || tc != f.Code()) HarnessAbort(vh::fmt("the sharing route did not leave a zero-item field '%s' behind (count %u)", f.name.c_str(), cnt));
+      if (countRoutes) vh::stat("route_zero_items_via_shared_array");
+      if (routeLog.size() < 300) { routeLog += f.name.substr(0, 12); routeLog += ":zero_via_share "; }
+      return;
+   }
    int route = forceRoute >= 0 ? forceRoute : (R(3) == 0 ? ROUTE_APPEND : (int)R(NUM_ROUTES));
    if (n > 400 && route != ROUTE_PREPEND && route != ROUTE_SLIDING_WINDOW && route != ROUTE_BOTH_ENDS) route = ROUTE_APPEND;   // keep the O(n^2) routes to small fields
    if (countRoutes) vh::stat(ROUTE_NAME[route]);
@@ -640,7 +652,7 @@ static void EnsureWirePeer()
 static const char * PREV_KIND[5] = {"same", "unrelated", "superset", "same_names_other_types", "subset"};
 static Scr MakePrev(const Scr & s, int & kind)
 {
-   Prof pp; pp.pySafe = true; pp.nonAsciiNames = R(6) == 0; pp.big = false; pp.maxDepth = 1;
+   Prof pp; pp.pySafe = true; pp.nonAsciiNames = R(6) == 0; pp.big = false; pp.maxDepth = 1; pp.zeroItems = R(4) == 0;
    kind = (int)R(5); Scr p;
    switch (kind) {
       case 0: p = s; break;
@@ -654,6 +666,11 @@ static Scr MakePrev(const Scr & s, int & kind)
    return p;
 }
 static bool tgtUsed; static std::string tgtDesc;
+static void StripZeroItemFields(Scr & p)   // MiniMessage "does not allow zero-item fields" (its own comment)
+{
+   for (size_t i = p.f.size(); i > 0; i--) { Fld & f = p.f[i - 1]; if (f.Count() == 0) p.f.erase(p.f.begin() + (i - 1)); else for (size_t k = 0; k < f.mv.size(); k++) StripZeroItemFields(f.mv[k]); }
+   if (p.f.empty()) { Fld x; x.name = "old"; x.type = B_INT32_TYPE; x.iv.push_back(1); p.f.push_back(x); }
+}
 static void NoteTarget(const Scr & s, int kind, bool byParse, const char * impl, bool countStats)
 {
    tgtUsed = true; tgtDesc = vh::fmt(" | target object (%s) already held a '%s' Message filled by %s", impl, PREV_KIND[kind], byParse ? "an earlier parse" : "the add API");
@@ -677,7 +694,7 @@ static MMessage * MiniTarget(const Scr & s, bool countStats)
 {
    tgtUsed = false; tgtDesc.clear();
    if (R(2) == 0) { MMessage * m = MMAllocMessage(R(2) ? 0 : 12345); MCK(m, "MMAllocMessage"); return m; }
-   int kind; const Scr p = MakePrev(s, kind); const bool byParse = R(2) != 0;
+   int kind; Scr p = MakePrev(s, kind); StripZeroItemFields(p); const bool byParse = R(2) != 0;
    MMessage * t = BuildMM(p);
    if (byParse) { const std::string pb = FlatMM(t); MMFreeMessage(t); t = MMAllocMessage(0); MCK(t, "MMAllocMessage"); if (MMUnflattenMessage(t, pb.data(), (uint32)pb.size()) != CB_NO_ERROR) HarnessAbort("MiniMessage cannot read its own bytes while preparing a used target"); }
    NoteTarget(s, kind, byParse, "MMessage", false); if (countStats) { vh::stat("mini_parse_into_used_target"); if (s.f.empty()) vh::stat("mini_parse_fieldless_into_used_target"); }
@@ -723,7 +740,15 @@ static void RunWire(long k, const Scr & s, bool countStats)
    }
 
    // ---- MiniMessage
-   if (!caseBad) {
+   if (!caseBad && in.zeroItemFields) {
+      // MiniMessage.c: "we don't allow zero-item fields!" -- it cannot build them; as a reader it may refuse the bytes (counted as
+      // unspecified), but if it accepts them it must give them back unchanged
+      MMessage * m2 = MiniTarget(s, false);
+      if (MMUnflattenMessage(m2, bc.data(), (uint32)bc.size()) != CB_NO_ERROR) { if (countStats) vh::stat("unspecified_mini_refuses_zero_item_fields"); }
+      else { const std::string b2 = FlatMM(m2); if (b2 != bc) Fail("reflatten|mini-of-cpp-bytes-with-zero-item-field", DiffText("c++", bc, "mini", b2)); else if (countStats) vh::stat("mini_accepted_zero_item_fields"); }
+      MMFreeMessage(m2);
+   }
+   else if (!caseBad) {
       MMessage * mm = BuildMM(s);
       if (!CheckMM(mm, s, why)) HarnessAbort("the natively built MMessage does not hold the script: " + why);
       const std::string bm = FlatMM(mm);
@@ -745,7 +770,8 @@ static void RunWire(long k, const Scr & s, bool countStats)
    if (!caseBad) {
       umBuf.assign(bc.size() + 256, 0xA5);
       UMessage um; if (UMInitializeToEmptyMessage(&um, umBuf.data(), (uint32)bc.size() + 128, s.what) != CB_NO_ERROR) HarnessAbort("UMInitializeToEmptyMessage");
-      if (BuildUM(s, &um) != CB_NO_ERROR) {
+      if (in.zeroItemFields) { if (countStats) vh::stat("unspecified_micro_native_build_of_zero_item_fields_skipped"); }   // no documented way to add a field without items (UMAddData always adds one; the others are silent about n = 0): parse-only
+      else if (BuildUM(s, &um) != CB_NO_ERROR) {
          // a build step refused although the buffer has 128 spare bytes: either the micro codec needs more bytes than the C++ one (layout) or it refuses legal content
          Fail("bytes|micro-build-refused", "a UMAdd* step returned an error with a buffer 128 bytes larger than the C++ bytes");
       } else {
@@ -760,8 +786,9 @@ static void RunWire(long k, const Scr & s, bool countStats)
       for (size_t i = bc.size() + 128; i < umBuf.size(); i++) if (umBuf[i] != 0xA5) { Fail("bytes|micro-writes-beyond-buffer", "UMAdd* wrote past the buffer size it was given"); break; }
       UMessage ur;
       if (UMInitializeWithExistingData(&ur, (const uint8 *)bc.data(), (uint32)bc.size()) != CB_NO_ERROR) Fail("parse|micro-rejects-cpp-bytes", "UMInitializeWithExistingData returns an error");
-      else if (!CheckUM(&ur, s, why)) Fail("parse|micro-of-cpp-bytes-content", why);
+      else if (!CheckUM(&ur, s, why)) { if (in.zeroItemFields) Known("umzerofield", "micro|zero-item-field-not-readable", "UMessage getters on bytes that hold a zero-item field: " + why); else Fail("parse|micro-of-cpp-bytes-content", why); }
       else if (umZeroLast) { if (countStats) vh::stat("micro_reflatten_skipped_finddata_defect"); }
+      else if (in.zeroItemFields) { if (countStats) vh::stat("unspecified_micro_reflatten_of_zero_item_fields_skipped"); }   // the add API cannot express them (see above)
       else {
          umBuf2.assign(bc.size() + 128, 0); UMessage uc; if (UMInitializeToEmptyMessage(&uc, umBuf2.data(), (uint32)umBuf2.size(), UMGetWhatCode(&ur)) != CB_NO_ERROR) HarnessAbort("UMInitializeToEmptyMessage");
          if (CopyUM(&ur, &uc) != CB_NO_ERROR) Fail("reflatten|micro-of-cpp-bytes-refused", "getter or adder failed while copying the parsed message");
@@ -788,6 +815,7 @@ static void RunWire(long k, const Scr & s, bool countStats)
       vh::stat("bytes_total", (long)bc.size()); vh::statmax("max_bytes", (long)bc.size()); vh::statmax("max_depth", in.depth); vh::statmax("max_items_in_field", in.maxCount); vh::statmax("max_fields", (long)s.f.size());
       vh::stat("fields", in.fields); vh::stat("items", in.items); vh::stat("multi_item_fields", in.multiItemFields);
       for (int i = 0; i < 12; i++) if (in.perType[i]) vh::stat(std::string("items_") + TNAME[i], in.perType[i]);
+      if (in.zeroItemFields) { vh::stat("zero_item_fields", in.zeroItemFields); vh::stat("msgs_with_zero_item_fields"); }
       if (in.depth) vh::stat("msgs_with_nesting"); if (in.nanItems) vh::stat("nan_float_double_items", in.nanItems); if (in.nanPtRc) vh::stat("msgs_with_nan_in_point_rect");
       if (in.emptyNames) vh::stat("empty_field_names", in.emptyNames); if (in.zeroRaw) vh::stat("zero_length_raw_items", in.zeroRaw); if (in.emptyStr) vh::stat("empty_strings", in.emptyStr);
       if (in.userTyped) vh::stat("user_typed_fields", in.userTyped); if (in.pyStrFields) vh::stat("user_typed_fields_with_str_items_in_python", in.pyStrFields); if (in.utf8Str) vh::stat("non_ascii_utf8_strings", in.utf8Str); if (in.nonUtf8) vh::stat("msgs_with_non_utf8_strings"); if (in.nonAsciiName) vh::stat("msgs_with_non_ascii_field_names"); if (s.f.empty()) vh::stat("empty_messages");
@@ -797,7 +825,7 @@ static void RunWire(long k, const Scr & s, bool countStats)
 
 static Prof WireProf()
 {
-   Prof p; p.pySafe = R(5) != 0; p.nonAsciiNames = R(6) == 0; p.big = R(8) == 0; p.maxDepth = R(12) == 0 ? 6 : 3;
+   Prof p; p.pySafe = R(5) != 0; p.nonAsciiNames = R(6) == 0; p.big = R(8) == 0; p.maxDepth = R(12) == 0 ? 6 : 3; p.zeroItems = R(5) == 0;
    return p;
 }
 
@@ -959,11 +987,80 @@ static std::string EchoExchange(const std::vector<MessageRef> & ms, Rx & rx)
    return "";
 }
 
+// ---- C++ senders with the zlib encodings: the frame is still [length]['Enc0'+n]; walked by hand
+// body of a ZLIB_n frame (zlib/ZLibCodec.cpp): ['zlib' dependent | 'zlic' independent, 4 bytes LE][raw size, 4 bytes LE][deflate data up to a sync flush];
+// "dependent" = the deflate stream continues from the previous frame, so the hand inflater keeps its state across the frames of one stream.
+static uint32_t LE32(const std::string & s, size_t off) { return (uint32_t)(unsigned char)s[off] | ((uint32_t)(unsigned char)s[off + 1] << 8) | ((uint32_t)(unsigned char)s[off + 2] << 16) | ((uint32_t)(unsigned char)s[off + 3] << 24); }
+static const uint32_t ENC0 = 1164862256u;
+// returns "" or what is wrong (key in *key)
+static std::string WalkZlibStream(const std::string & stream, const std::vector<std::string> & plain, int level, std::string & key, long & deflated, long & small)
+{
+   z_stream zs; memset(&zs, 0, sizeof(zs)); if (inflateInit(&zs) != Z_OK) HarnessAbort("inflateInit");
+   size_t off = 0; std::string bad;
+   for (size_t i = 0; bad.empty(); i++) {
+      if (off == stream.size()) { if (i != plain.size()) { key = "gw|zlib-sender-frame-count"; bad = vh::fmt("%zu frames on the stream, %zu Messages were sent", i, plain.size()); } break; }
+      if (i >= plain.size()) { key = "gw|zlib-sender-frame-count"; bad = vh::fmt("more than %zu frames on the stream", plain.size()); break; }
+      if (off + 8 > stream.size()) { key = "gw|zlib-sender-frame-truncated"; bad = vh::fmt("frame #%zu: partial header", i); break; }
+      const uint32_t len = LE32(stream, off), enc = LE32(stream, off + 4); off += 8;
+      if (off + len > stream.size()) { key = "gw|zlib-sender-frame-truncated"; bad = vh::fmt("frame #%zu: length word %u exceeds the stream", i, len); break; }
+      const std::string body = stream.substr(off, len); off += len;
+      const bool isPlain = (body == plain[i]);
+      if (enc == ENC0) { if (!isPlain) { key = "gw|zlib-sender-enc0-frame-body-not-plain"; bad = vh::fmt("frame #%zu says Enc0 but its body is not the flattened Message: ", i) + DiffText("flattened", plain[i], "body", body); } else small++; continue; }
+      if (enc != ENC0 + (uint32_t)level) { key = "gw|zlib-sender-encoding-word"; bad = vh::fmt("frame #%zu: encoding word %u is neither Enc0 nor ZLIB_%d (%u)", i, enc, level, ENC0 + level); break; }
+      if (isPlain) { key = "gw|zlib-encoding-word-on-plain-body"; bad = vh::fmt("frame #%zu (%u bytes) says ZLIB_%d but its body is the plain flattened Message", i, len, level); break; }
+      if (len < 8 || (LE32(body, 0) != 2053925218u && LE32(body, 0) != 2053925219u)) { key = "gw|zlib-frame-codec-header"; bad = vh::fmt("frame #%zu: body does not start with 'zlib'/'zlic' + raw size", i); break; }
+      const uint32_t raw = LE32(body, 4); if (raw != plain[i].size()) { key = "gw|zlib-frame-codec-header"; bad = vh::fmt("frame #%zu: raw-size word %u, flattened Message has %zu bytes", i, raw, plain[i].size()); break; }
+      if (LE32(body, 0) == 2053925219u) inflateReset(&zs);
+      std::string out; out.resize(raw + 1); zs.next_in = (Bytef *)(body.data() + 8); zs.avail_in = len - 8; zs.next_out = (Bytef *)&out[0]; zs.avail_out = raw + 1;
+      const int zr = inflate(&zs, Z_SYNC_FLUSH); out.resize(raw + 1 - zs.avail_out);
+      if ((zr != Z_OK && zr != Z_BUF_ERROR) || zs.avail_in != 0 || out != plain[i]) { key = "gw|zlib-frame-does-not-inflate-to-message"; bad = vh::fmt("frame #%zu: inflate returns %d, %u input bytes left, %zu bytes out of %u: ", i, zr, zs.avail_in, out.size(), raw) + DiffText("flattened", plain[i], "inflated", out); break; }
+      deflated++;
+   }
+   inflateEnd(&zs); return bad;
+}
+static Scr TinyScript()
+{
+   Scr t; t.what = R(3) ? (uint32)g.next() : 0;
+   switch (R(5)) {
+      case 0: case 1: break;                                                                                     // field-less: 12 bytes, frame 20 < 32
+      case 2: { Fld f; f.name = ""; f.type = B_BOOL_TYPE; f.iv.push_back(1); t.f.push_back(f); } break;            // 26 bytes, frame 34
+      case 3: { Fld f; f.name = "a"; f.type = B_INT8_TYPE; f.iv.push_back(-1); t.f.push_back(f); } break;         // 27 bytes
+      default: { Fld f; f.name = ""; f.type = B_INT32_TYPE; t.f.push_back(f); } break;                            // one zero-item field: 25 bytes, frame 33
+   }
+   return t;
+}
+// ss/ms/bodies: Messages to send (tiny ones are mixed in here); level 1..9
+static void ZlibSenderLeg(const std::vector<Scr> & ss0, int level, bool countStats)
+{
+   std::vector<MessageRef> ms; std::vector<std::string> plain; long tiny = 0;
+   for (size_t i = 0; i <= ss0.size(); i++) {
+      while (R(2)) { ms.push_back(BuildCpp(TinyScript())); plain.push_back(FlatCpp(*ms.back()())); tiny++; }
+      if (i < ss0.size()) { ms.push_back(BuildCpp(ss0[i])); plain.push_back(FlatCpp(*ms.back()())); }
+   }
+   if (ms.empty()) { ms.push_back(BuildCpp(TinyScript())); plain.push_back(FlatCpp(*ms.back()())); tiny++; }
+   MemPipe p; MessageIOGateway gw; gw.SetOutgoingEncoding(MUSCLE_MESSAGE_ENCODING_ZLIB_1 + level - 1); gw.SetDataIO(DataIORef(new MemIO(NULL, &p)));
+   for (size_t i = 0; i < ms.size(); i++) if (gw.AddOutgoingMessage(ms[i]).IsError()) HarnessAbort("AddOutgoingMessage");
+   while (gw.HasBytesToOutput()) { io_status_t r = gw.DoOutput(); if (r.IsError()) { Fail("gw|zlib-sender-output-error", std::string("MessageIOGateway::DoOutput: ") + r.GetStatus()()); return; } }
+   std::string key; long deflated = 0, small = 0; const std::string bad = WalkZlibStream(p.q, plain, level, key, deflated, small);
+   if (!bad.empty()) { Fail(key, vh::fmt("sender with MUSCLE_MESSAGE_ENCODING_ZLIB_%d, %zu Messages: ", level, ms.size()) + bad); return; }
+   std::vector<std::string> got; std::string why;
+   if (!CppIn(p.q, got, why)) { Fail("gw|cpp-gateway-rejects-zlib-stream", vh::fmt("a second MessageIOGateway reading the ZLIB_%d stream (%zu of %zu Messages delivered): ", level, got.size(), plain.size()) + why); return; }
+   if (got != plain) { Fail("gw|cpp-gateway-reads-zlib-stream-differently", ListDiff("sent", plain, "received", got)); return; }
+   // the C gateways know only Enc0: a ZLIB_n frame must be refused with the documented error return (-1), never delivered as a Message
+   if (deflated) {
+      size_t off = 0; while (LE32(p.q, off + 4) == ENC0) off += 8 + LE32(p.q, off);
+      const std::string tail = p.q.substr(off); got.clear(); const bool mok = MiniIn(tail, got, why); if (mok || !got.empty()) { Fail("gw|mini-gateway-takes-zlib-frame", vh::fmt("MGDoInput on a ZLIB_%d frame: no error return, %zu Messages delivered", level, got.size())); return; }
+      got.clear(); const bool uok = MicroIn(tail, got, why); if (uok || !got.empty()) { Fail("gw|micro-gateway-takes-zlib-frame", vh::fmt("UGDoInput on a ZLIB_%d frame: no error return, %zu Messages delivered", level, got.size())); return; }
+      if (countStats) vh::stat("c_gateways_refused_zlib_frame", 2);
+   }
+   if (countStats) { vh::stat("zlib_sender_streams_checked"); vh::stat(vh::fmt("zlib_sender_level_%d", level)); vh::stat("zlib_frames_deflated", deflated); vh::stat("zlib_frames_sent_plain_below_32_bytes", small); vh::stat("zlib_tiny_messages_mixed_in", tiny); }
+}
+
 static void RunFrame(long k)
 {
    caseBad = false; deferredKey.clear();
    if (ugIn.empty()) { ugIn.resize(2 * 1024 * 1024); ugOut.resize(2 * 1024 * 1024); }
-   Prof p; p.pySafe = true; p.nonAsciiNames = !Masked("pynames") && R(5) == 0; p.big = R(4) == 0; p.maxDepth = 3;
+   Prof p; p.pySafe = true; p.nonAsciiNames = !Masked("pynames") && R(5) == 0; p.big = R(4) == 0; p.maxDepth = 3; p.zeroItems = false;   // (the C gateways' native builders cannot hold zero-item fields)
    const uint32 n = 1 + (R(3) == 0 ? R(12) : R(4));
    std::vector<Scr> ss; std::vector<MessageRef> ms; std::vector<std::string> bodies; std::string doc; bool nonAscii = false; Info tot;
    curJson = "[";
@@ -982,6 +1079,7 @@ static void RunFrame(long k)
    if (!caseBad) { got.clear(); if (!CppIn(sm, got, why)) Fail("gw|cpp-gateway-rejects-mini-frames", why); else if (got != bodies) Fail("gw|cpp-gateway-reads-mini-frames-differently", ListDiff("sent", bodies, "c++ gateway", got)); }
    if (!caseBad) { got.clear(); if (!CppIn(su, got, why)) Fail("gw|cpp-gateway-rejects-micro-frames", why); else if (got != bodies) Fail("gw|cpp-gateway-reads-micro-frames-differently", ListDiff("sent", bodies, "c++ gateway", got)); }
    if (!caseBad) vh::stat("frames_compared_in_memory", (long)n);
+   if (!caseBad) ZlibSenderLeg(ss, 1 + (int)R(9), true);
 
    // ---- (3) TCP loopback: C++ MessageIOGateway <-> message_transceiver_thread.py echoing every Message
    if (!caseBad) {
@@ -1117,6 +1215,29 @@ static void Regress()
      { std::string line = "{\"case\":6,\"nopy\":\"\",\"script\":"; Json(none, line); line += ",\"prev\":"; Json(DocScript(), line); line += ",\"cpp\":"; JHex(bare, line); line += "}\n"; EnsureWirePeer(); wirePeer.Send(line);
        std::vector<std::string> v = SplitTabs(wirePeer.ReadLine()); if (v.size() != 6 || v[0] != "R") HarnessAbort("unexpected answer from the python peer"); if (v[2] != "-") Fail(v[2], v[3]); if (v[4].find("py_parse_fieldless_into_used_target=1") == std::string::npos) HarnessAbort("python peer did not parse into a used target"); }
      vh::distinct(vh::fnvs(bare), true); vh::stat("used_target_witness_checked"); }
+   vh::begin_case(7);   // a field with ZERO items is wire content: the 80 bytes message.py writes for Message(1234){count=3, levels=[], name="x"}, hand-written
+   { g = vh::Rng(107); Scr s; s.what = 1234; s.f.push_back(MkI("count", B_INT32_TYPE, 3, 0, 1)); { Fld f; f.name = "levels"; f.type = B_INT32_TYPE; s.f.push_back(f); } { Fld f; f.name = "name"; f.type = B_STRING_TYPE; f.sv.push_back("x"); s.f.push_back(f); }
+     const std::string want = FromHex("30304d50" "d2040000" "03000000" "06000000" "636f756e7400" "474e4f4c" "04000000" "03000000" "07000000" "6c6576656c7300" "474e4f4c" "00000000" "05000000" "6e616d6500" "52545343" "0a000000" "01000000" "02000000" "7800");
+     RunWire(7, s, true);      // C++ (sharing route), Python ([] list) and the reference codec build it natively; all parse and re-serialise it
+     std::string why; Message m; if (want.size() != 80) HarnessAbort("zero-item example is not 80 bytes");
+     if (m.UnflattenFromBytes((const uint8 *)want.data(), 80).IsError() || !CheckCpp(m, s, why) || m.FlattenedSize() != 80 || FlatCpp(m) != want) { caseBad = false; Fail("witness|zero-item-field-reserialised", vh::fmt("C++ parse + re-flatten of the hand-written bytes: %s; FlattenedSize %u, ", why.c_str(), m.FlattenedSize()) + DiffText("hand-written", want, "c++", FlatCpp(m))); }
+     MessageRef outer = GetMessageFromPool(1); CKR(outer()->AddMessage("sub", m), "AddMessage"); const std::string ob = FlatCpp(*outer()); Message o2; ConstMessageRef sub;
+     if (o2.UnflattenFromBytes((const uint8 *)ob.data(), (uint32)ob.size()).IsError() || o2.FindMessage("sub", sub).IsError() || !CheckCpp(*sub(), s, why) || FlatCpp(o2) != ob || ob.find(want) == std::string::npos) { caseBad = false; Fail("witness|zero-item-field-reserialised-nested", "nested: " + why); }
+     vh::stat("zero_item_witness_checked"); }
+   vh::begin_case(8);   // MicroMessage reader: a zero-item field that is the LAST field of its Message must still be visible
+   { g = vh::Rng(108); Scr s; s.what = 1; s.f.push_back(MkI("a", B_INT16_TYPE, 27004, 0, 1)); { Fld f; f.name = "z"; f.type = B_POINT_TYPE; s.f.push_back(f); } RunWire(8, s, true); }
+   vh::begin_case(9);   // C++ senders with zlib encodings: small frames stay Enc0 + plain, the others inflate to the flattened Message; Python and the C gateways refuse ZLIB frames
+   { g = vh::Rng(109); caseBad = false; if (ugIn.empty()) { ugIn.resize(2 * 1024 * 1024); ugOut.resize(2 * 1024 * 1024); } curJson = "(documented example and field-less Messages through zlib senders)"; curCppHex = "";
+     Scr none; none.what = 42; std::vector<Scr> mix; mix.push_back(DocScript()); mix.push_back(none); mix.push_back(DocScript()); mix.push_back(none); mix.push_back(none); mix.push_back(DocScript());
+     const int levels[3] = {1, 6, 9}; for (int i = 0; i < 3 && !caseBad; i++) ZlibSenderLeg(mix, levels[i], true);
+     if (!caseBad) {
+        EchoUp(); echo.gw->SetOutgoingEncoding(MUSCLE_MESSAGE_ENCODING_ZLIB_6); std::vector<MessageRef> one(1, BuildCpp(DocScript())); Rx rx; const std::string ended = EchoExchange(one, rx); echo.peerSaid += echo.peer.Drain();
+        // message_transceiver_thread.py: "if magic != MUSCLE_MESSAGE_ENCODING_DEFAULT: raise socket.error" -> it drops the connection
+        if (ended.empty() || ended.find("stalled") != std::string::npos) Fail("gw|python-does-not-refuse-zlib-frame", "message_transceiver_thread.py got a ZLIB_6 frame: " + (ended.empty() ? std::string("it echoed a Message") : ended) + " | peer said: " + echo.peerSaid);
+        else vh::stat("python_refused_zlib_frame");
+        EchoDown(true);
+     }
+     vh::distinct(109, true); vh::stat("zlib_witness_checked"); }
 }
 
 
